@@ -3,7 +3,7 @@
 // the integrand reads the draw counter at every invocation.
 #include "vf_main.hpp"
 #include "mcmap.hpp"
-#include "hep/mc.hpp"
+#include "hep/mc-mpi.hpp"
 
 typedef VF_T T;
 using namespace vf;
@@ -37,8 +37,8 @@ private:
     std::uint64_t s_;
 };
 
-struct CallLog { std::vector<std::uint64_t> draws_at_call; std::uint64_t n = 0; int pattern = 0; };
-CallLog* g_log = 0;
+struct CallLog { std::vector<std::uint64_t> draws_at_call, discarded_at_call; std::uint64_t n = 0; int pattern = 0; };
+thread_local CallLog* g_log = 0;
 
 T pattern_value(int pattern, std::uint64_t n)
 {
@@ -56,6 +56,7 @@ template <typename P> T rec_f(P const& p)
 {
     CallLog& l = *g_log;
     l.draws_at_call.push_back(drawlog().draws);
+    l.discarded_at_call.push_back(drawlog().discarded);
     (void)p;
     return pattern_value(l.pattern, l.n++);
 }
@@ -156,15 +157,132 @@ template <typename E> void engine_case(Rng& rng, char const* ename)
         for (T x : w) any = any || x != T();
         if (!any) w[0] = T(1);
         typedef hep::multi_channel_chkpt_with_rng<CE, T> chk_t;
-        auto r = hep::multi_channel(hep::make_multi_channel_integrand<T>(rec_f<hep::multi_channel_point<T>>, dims, map, dims, channels), calls,
+        // the map may produce fewer coordinates than it takes random numbers: the cost is 1 + dimensions(), whatever map_dimensions() is
+        std::size_t coords = rng.range(1, dims);
+        if (coords != dims) count("multi_channel_runs_with_map_dimensions_differing_from_dimensions");
+        auto r = hep::multi_channel(hep::make_multi_channel_integrand<T>(rec_f<hep::multi_channel_point<T>>, dims, map, coords, channels), calls,
             chk_t(initial, w, T(), T(0.25)), GoOn());
-        judge_run<CE>(ename, "multi_channel", dims + 1, k, calls, log, initial, r.generator(), J(info).s("integrator", "multi_channel").fv("weights", w), false);
+        judge_run<CE>(ename, "multi_channel", dims + 1, k, calls, log, initial, r.generator(), J(info).s("integrator", "multi_channel").fv("weights", w).u("map_dimensions", coords), false);
     }
     g_log = 0;
     ++ctx().evaluations;
     if (k >= 2) count("runs_with_k>=2");
     nontrivial(mix(hash_str(info.str()), integ));
     sample(info, 4);
+}
+
+
+// ---- MPI forms on the thread shim: every rank has its own (thread-local) draw counter -------------------------------------------------
+// Oracle per rank: (a) between two of its own calls inside an iteration exactly per_call*k numbers are drawn and nothing is discarded,
+// (b) whenever the callback runs after iteration j the generator stored in the checkpoint is the initial one advanced by
+// per_call * k * (calls_0 + ... + calls_j), on every rank, and (c) that is also the total this rank's generator has moved (drawn + discarded).
+template <typename CE> struct RankRec
+{
+    CallLog log;
+    std::vector<CE> stored;                 // chkpt.generator() at each callback
+    std::vector<std::uint64_t> moved;       // draws + discarded at each callback
+    std::vector<std::uint64_t> calls_seen;  // own calls so far at each callback
+};
+
+template <typename CE> struct MpiCb
+{
+    RankRec<CE>* r;
+    template <typename C> bool operator()(MPI_Comm, C const& chk)
+    {
+        r->stored.push_back(chk.generator());
+        r->moved.push_back(drawlog().draws + drawlog().discarded);
+        r->calls_seen.push_back(r->log.draws_at_call.size());
+        return true;
+    }
+};
+
+template <typename E> void mpi_case(Rng& rng, char const* ename)
+{
+    typedef CountingEngine<E> CE;
+    std::uint64_t k = measure_k<E>();
+    int P = int(rng.range(2, 5));
+    std::size_t dims = rng.range(1, 4);
+    std::vector<std::size_t> calls;
+    std::size_t iters = rng.range(1, 4);
+    for (std::size_t i = 0; i < iters; ++i)
+    {
+        std::size_t pool[] = {0, 1, 7, 100, 13, std::size_t(P - 1), std::size_t(P + 1), std::size_t(3 * P)};
+        calls.push_back(pool[rng.below(8)]);
+    }
+    int integ = rng.below(3);
+    int pattern = rng.below(5);
+    std::size_t coords = integ == 2 ? rng.range(1, dims) : dims;
+    std::size_t per_call = integ == 2 ? dims + 1 : dims;
+    std::size_t channels = rng.range(1, 4), bins = rng.range(2, 9);
+    E seed_engine;
+    seed_engine.discard(rng.below(1000));
+    CE initial(seed_engine);
+    static char const* names[] = {"mpi_plain", "mpi_vegas", "mpi_multi_channel"};
+    J info;
+    info.s("T", tname<T>::get()).s("engine", ename).u("k_measured", k).s("integrator", names[integ]).i("ranks", P).u("dims", dims).u("map_dimensions", coords)
+        .uv("calls", calls).i("pattern", pattern);
+    std::vector<RankRec<CE>> recs(P);
+    VfWorld world;
+    vf_mpi_run(world, P, rng.next(), [&](int rank, MPI_Comm comm) {
+        RankRec<CE>& rr = recs[rank];
+        rr.log.pattern = pattern;
+        g_log = &rr.log;
+        drawlog() = DrawLog();
+        MpiCb<CE> cb = {&rr};
+        if (integ == 0) hep::mpi_plain(comm, hep::make_integrand<T>(rec_f<hep::mc_point<T>>, dims), calls, hep::plain_chkpt_with_rng<CE, T>(initial), cb);
+        else if (integ == 1) hep::mpi_vegas(comm, hep::make_integrand<T>(rec_f<hep::vegas_point<T>>, dims), calls, hep::vegas_chkpt_with_rng<CE, T>(initial, bins, T(1.5)), cb);
+        else
+        {
+            PowerMap<T> map;
+            for (std::size_t c = 0; c < channels; ++c) map.a.push_back(T(c) * T(0.5));
+            hep::mpi_multi_channel(comm, hep::make_multi_channel_integrand<T>(rec_f<hep::multi_channel_point<T>>, dims, map, coords, channels), calls,
+                hep::multi_channel_chkpt_with_rng<CE, T>(initial, T(), T(0.25)), cb);
+        }
+        g_log = 0;
+    });
+    ++ctx().evaluations;
+    count("mpi_runs");
+    if (coords != dims) count("mpi_multi_channel_runs_with_map_dimensions_differing_from_dimensions");
+    if (world.aborted) { viol("mpi-run-aborted", J(info).s("reason", world.abort_reason)); return; }
+    std::uint64_t own_total = 0;
+    for (int rank = 0; rank < P; ++rank)
+    {
+        RankRec<CE> const& rr = recs[rank];
+        J ri = J(info).i("rank", rank);
+        if (rr.stored.size() != iters) { viol(std::string("mpi:callback-count:") + names[integ], J(ri).u("seen", rr.stored.size())); return; }
+        own_total += rr.log.draws_at_call.size();
+        std::uint64_t sum = 0;
+        std::size_t first = 0;
+        for (std::size_t j = 0; j < iters; ++j)
+        {
+            sum += calls[j];
+            // (a) inside the iteration
+            for (std::size_t i = first + 1; i < rr.calls_seen[j]; ++i)
+            {
+                count("mpi_calls_checked");
+                if (rr.log.draws_at_call[i] - rr.log.draws_at_call[i - 1] != per_call * k || rr.log.discarded_at_call[i] != rr.log.discarded_at_call[i - 1])
+                {
+                    viol(std::string("mpi:draws-per-call:") + names[integ], J(ri).u("iteration", j).u("own_call", i).u("drawn", rr.log.draws_at_call[i] - rr.log.draws_at_call[i - 1])
+                        .u("discarded", rr.log.discarded_at_call[i] - rr.log.discarded_at_call[i - 1]).u("expected", per_call * k));
+                    return;
+                }
+            }
+            first = rr.calls_seen[j];
+            // (b), (c)
+            std::uint64_t expect = sum * per_call * k;
+            count("mpi_stored_generators_checked");
+            if (rr.moved[j] != expect) { viol(std::string("mpi:generator-moved-not-calls-times-usage:") + names[integ], J(ri).u("iteration", j).u("moved", rr.moved[j]).u("expected", expect)); return; }
+            CE ref = initial;
+            ref.discard(expect);
+            if (!(ref == rr.stored[j])) { viol(std::string("mpi:stored-generator-not-initial-advanced:") + names[integ], J(ri).u("iteration", j).u("expected_advance", expect)); return; }
+        }
+    }
+    std::uint64_t total = 0;
+    for (auto c : calls) total += c;
+    if (own_total != total) { viol(std::string("mpi:call-count:") + names[integ], J(info).u("invocations", own_total).u("expected", total)); return; }
+    if (k >= 2) count("runs_with_k>=2");
+    nontrivial(mix(hash_str(info.str()), 77));
+    sample(info, 3);
 }
 
 // scripted engine that forces canonical numbers of exactly 0 (and the largest value below 1) into random
@@ -304,9 +422,11 @@ std::uint64_t vfh_num_cases(bool thorough) { return VF_ENGSET == 3 ? 4 : (thorou
 void vfh_run_case(std::uint64_t idx, Rng& rng)
 {
 #if VF_ENGSET == 0
+    if (idx % 5 == 4) { mpi_case<std::minstd_rand0>(rng, "minstd_rand0"); return; }
     switch (idx % 3) { case 0: engine_case<std::minstd_rand0>(rng, "minstd_rand0"); break; case 1: engine_case<std::minstd_rand>(rng, "minstd_rand"); break; default: engine_case<std::knuth_b>(rng, "knuth_b"); break; }
 #elif VF_ENGSET == 1
     if (idx % 4 == 3) { scripted_case(rng); return; }
+    if (idx % 5 == 4) { mpi_case<std::mt19937>(rng, "mt19937"); return; }
     switch (idx % 3) { case 0: engine_case<std::mt19937>(rng, "mt19937"); break; case 1: engine_case<std::mt19937_64>(rng, "mt19937_64"); break; default: engine_case<std::ranlux24_base>(rng, "ranlux24_base"); break; }
 #elif VF_ENGSET == 2
     switch (idx % 3) { case 0: engine_case<std::ranlux48_base>(rng, "ranlux48_base"); break; case 1: engine_case<std::ranlux24>(rng, "ranlux24"); break; default: engine_case<std::ranlux48>(rng, "ranlux48"); break; }
